@@ -646,3 +646,152 @@ Proof.
 Qed.
 
 End StoreThm.
+
+(** * 5. scalar loads: cache-line splitting *)
+Section Smem.
+Variable lg : N.
+Hypothesis Hlg : 2 <= lg.
+Local Arguments N.mul : simpl never.
+Local Arguments N.add : simpl never.
+Local Arguments N.of_nat : simpl never.
+Local Arguments N.div : simpl never.
+Local Arguments N.modulo : simpl never.
+Local Arguments N.min : simpl never.
+
+Definition Kdw : N := 2 ^ (lg - 2).          (* dwords per line *)
+
+Lemma LS_4K : LS lg = 4 * Kdw.
+Proof. unfold LS, Kdw. replace lg with (2 + (lg - 2)) at 1 by lia. rewrite N.pow_add_r. reflexivity. Qed.
+
+Lemma Kdw_pos : 0 < Kdw.
+Proof. unfold Kdw. apply N.neq_0_lt_0, N.pow_nonzero. discriminate. Qed.
+
+Lemma off_4 a : off lg (4 * a) = 4 * (a mod Kdw).
+Proof. unfold off. rewrite LS_4K. apply N.mul_mod_distr_l; pose proof Kdw_pos; lia. Qed.
+
+(** the splitting loop in dword units: (first dword index, number of dwords) *)
+Fixpoint dw_pieces (fuel : nat) (s c r : N) : list (N * N) :=
+  match fuel with
+  | O => []
+  | S f => if r =? 0 then []
+           else let q := N.min (Kdw - (s + c) mod Kdw) r in (c, q) :: dw_pieces f s (c + q) (r - q)
+  end.
+
+Lemma pieces_dw fuel s dst : forall c r,
+  smem_pieces lg fuel (4 * s) (4 * (s + c)) (4 * r) dst =
+  map (fun p => (4 * (s + fst p), 4 * snd p, dst + fst p)) (dw_pieces fuel s c r).
+Proof.
+  induction fuel as [|f IH]; intros c r; [reflexivity|].
+  cbn [smem_pieces dw_pieces].
+  replace (4 * r =? 0) with (r =? 0) by (destruct (N.eqb_spec r 0), (N.eqb_spec (4 * r) 0); lia).
+  destruct (r =? 0) eqn:Er; [reflexivity|].
+  rewrite off_4, LS_4K. pose proof Kdw_pos as HK. pose proof (N.mod_lt (s + c) Kdw ltac:(lia)) as Hm.
+  set (x := (s + c) mod Kdw) in *.
+  replace (N.min (4 * Kdw - 4 * x) (4 * r)) with (4 * N.min (Kdw - x) r) by lia.
+  set (q := N.min (Kdw - x) r).
+  cbn [map fst snd]. f_equal.
+  - f_equal. f_equal. replace (4 * (s + c) - 4 * s) with (c * 4) by lia. rewrite N.div_mul by lia. reflexivity.
+  - replace (4 * (s + c) + 4 * q) with (4 * (s + (c + q))) by lia.
+    replace (4 * r - 4 * q) with (4 * (r - q)) by lia. apply IH.
+Qed.
+
+Lemma dw_pieces_spec fuel s : forall c r, (N.to_nat r <= fuel)%nat ->
+  (forall p, In p (dw_pieces fuel s c r) -> 1 <= snd p /\ c <= fst p /\ fst p + snd p <= c + r) /\
+  (forall j, c <= j < c + r -> exists p, In p (dw_pieces fuel s c r) /\ fst p <= j < fst p + snd p).
+Proof.
+  induction fuel as [|f IH]; intros c r Hf.
+  - split; [intros p []|intros j Hj; lia].
+  - cbn [dw_pieces]. destruct (N.eqb_spec r 0) as [->|Hr]; [split; [intros p []|intros j Hj; lia]|].
+    pose proof Kdw_pos as HK. pose proof (N.mod_lt (s + c) Kdw ltac:(lia)) as Hm.
+    set (q := N.min (Kdw - (s + c) mod Kdw) r) in *.
+    assert (Hq : 1 <= q <= r) by lia.
+    destruct (IH (c + q) (r - q) ltac:(lia)) as [H1 H2]. split.
+    + intros p [<-|Hp]; [simpl; lia|]. apply H1 in Hp. lia.
+    + intros j Hj. destruct (N.lt_ge_cases j (c + q)) as [Hlt|Hge].
+      * exists (c, q). split; [left; auto|simpl; lia].
+      * destruct (H2 j ltac:(lia)) as (p & Hp & Hr'). exists p. split; [right; auto|auto].
+Qed.
+
+Lemma smem_wb_ok m a q d : 1 <= q ->
+  exists ws, smem_wb m (a, 4 * q, d) = Some ws /\
+    forall kv, In kv ws <-> exists k, k < q /\ kv = (d + k, le32 (read m (a + 4 * k) 4)).
+Proof.
+  intros Hq. unfold smem_wb. cbn [fst snd].
+  assert (Hn : N.to_nat (4 * q) = (4 * N.to_nat q)%nat) by lia. rewrite Hn.
+  replace (4 * N.to_nat q / 4)%nat with (N.to_nat q) by (rewrite Nat.mul_comm, Nat.div_mul; lia).
+  replace (N.to_nat q =? 0)%nat with false by (symmetry; apply Nat.eqb_neq; lia).
+  replace (4 * N.to_nat q <? N.to_nat q * 4)%nat with false by (symmetry; apply Nat.ltb_ge; lia).
+  eexists; split; [reflexivity|]. intros kv. rewrite in_map_iff. split.
+  - intros (k & <- & Hk). apply in_seq in Hk. exists (N.of_nat k). split; [lia|]. f_equal.
+    apply le32_ext. intros i Hi. rewrite nth_firstn_lt, nth_skipn_add, !nth_read by lia. f_equal. lia.
+  - intros (k & Hk & ->). exists (N.to_nat k). split; [|apply in_seq; lia].
+    f_equal; [lia|]. apply le32_ext. intros i Hi. rewrite nth_firstn_lt, nth_skipn_add, !nth_read by lia. f_equal. lia.
+Qed.
+
+Lemma apply_s_consistent (f : N -> N) ws : forall rf k,
+  (forall kv, In kv ws -> snd kv = f (fst kv)) ->
+  apply_s ws rf k = if existsb (N.eqb k) (map fst ws) then f k else rf k.
+Proof.
+  unfold apply_s. induction ws as [|kv ws IH]; intros rf k H; [reflexivity|]. cbn [fold_left map existsb].
+  rewrite IH by (intros; apply H; right; auto).
+  destruct (existsb (N.eqb k) (map fst ws)); [rewrite orb_true_r; auto|].
+  rewrite orb_false_r. destruct (N.eqb_spec k (fst kv)); auto. subst. apply H. left; auto.
+Qed.
+
+Theorem smem_eq op start dst m rf sz :
+  smem_size op = Some sz ->
+  exists wt we, timing_smem lg op start dst m = Some wt /\ emu_smem op start dst m = Some we /\
+    forall k, apply_s wt rf k = apply_s we rf k.
+Proof.
+  intros Hsz. unfold timing_smem, emu_smem. rewrite Hsz.
+  assert (Hsz4 : exists r, sz = 4 * r /\ 1 <= r /\ r <= 16 /\ emu_smem_size op = Some sz).
+  { unfold smem_size in Hsz. unfold emu_smem_size.
+    repeat match type of Hsz with (if ?c then _ else _) = _ => destruct c end; inversion Hsz; subst;
+      [exists 1|exists 2|exists 4|exists 8|exists 16]; repeat split; lia. }
+  destruct Hsz4 as (r & -> & Hr1 & Hr16 & Hemu). rewrite Hemu.
+  set (s := start / 4). unfold smem_align. fold s. replace (s * 4) with (4 * s) by lia.
+  pose proof (pieces_dw (S (N.to_nat (4 * r))) s dst 0 r) as Hp. rewrite N.add_0_r in Hp. rewrite Hp.
+  destruct (dw_pieces_spec (S (N.to_nat (4 * r))) s 0 r ltac:(lia)) as [Hin Hcov].
+  set (ps := dw_pieces (S (N.to_nat (4 * r))) s 0 r) in *.
+  set (f := fun k => le32 (read m (4 * s + 4 * (k - dst)) 4)).
+  destruct (collect_spec (smem_wb m) (map (fun p => (4 * (s + fst p), 4 * snd p, dst + fst p)) ps)) as (wt & Hwt & Hwin).
+  { intros x Hx. apply in_map_iff in Hx. destruct Hx as (p & <- & Hpin). destruct (Hin p Hpin) as (H1 & _).
+    destruct (smem_wb_ok m (4 * (s + fst p)) (snd p) (dst + fst p) H1) as (ws & Hws & _). eauto. }
+  eexists; eexists. split; [exact Hwt|]. split; [reflexivity|]. intros k.
+  rewrite (apply_s_consistent f wt), (apply_s_consistent f).
+  - (* same key sets *)
+    assert (Hk : forall l1 l2 : list N, (forall y, In y l1 <-> In y l2) -> existsb (N.eqb k) l1 = existsb (N.eqb k) l2).
+    { intros l1 l2 H. destruct (existsb (N.eqb k) l1) eqn:E1, (existsb (N.eqb k) l2) eqn:E2; auto.
+      - apply existsb_exists in E1. destruct E1 as (y & Hy & Ey). apply N.eqb_eq in Ey. subst y.
+        apply H in Hy. assert (existsb (N.eqb k) l2 = true) by (apply existsb_exists; exists k; split; auto; apply N.eqb_refl). congruence.
+      - apply existsb_exists in E2. destruct E2 as (y & Hy & Ey). apply N.eqb_eq in Ey. subst y.
+        apply H in Hy. assert (existsb (N.eqb k) l1 = true) by (apply existsb_exists; exists k; split; auto; apply N.eqb_refl). congruence. }
+    rewrite (Hk _ (map fst (map (fun k0 => (dst + N.of_nat k0, dword_of (read m (4 * s) (N.to_nat (4 * r))) k0)) (seq 0 (N.to_nat (4 * r) / 4))))); [reflexivity|].
+    intros y. rewrite !in_map_iff. split.
+    + intros (kv & <- & Hkv). apply Hwin in Hkv. destruct Hkv as (x & ws & Hx & Hws & Hkv).
+      apply in_map_iff in Hx. destruct Hx as (p & <- & Hpin). destruct (Hin p Hpin) as (H1 & H0 & Hle).
+      destruct (smem_wb_ok m (4 * (s + fst p)) (snd p) (dst + fst p) H1) as (ws' & Hws' & Hin').
+      rewrite Hws in Hws'. inversion Hws'; subst ws'. apply Hin' in Hkv. destruct Hkv as (j & Hj & ->).
+      exists (dst + N.of_nat (N.to_nat (fst p + j)), dword_of (read m (4 * s) (N.to_nat (4 * r))) (N.to_nat (fst p + j))).
+      split; [simpl; lia|]. apply in_map_iff. exists (N.to_nat (fst p + j)). split; auto. apply in_seq.
+      replace (N.to_nat (4 * r) / 4)%nat with (N.to_nat r) by (replace (N.to_nat (4 * r)) with (N.to_nat r * 4)%nat by lia; rewrite Nat.div_mul; lia). lia.
+    + intros (kv & <- & Hkv). apply in_map_iff in Hkv. destruct Hkv as (j & <- & Hj). apply in_seq in Hj.
+      replace (N.to_nat (4 * r) / 4)%nat with (N.to_nat r) in Hj by (replace (N.to_nat (4 * r)) with (N.to_nat r * 4)%nat by lia; rewrite Nat.div_mul; lia).
+      destruct (Hcov (N.of_nat j) ltac:(lia)) as (p & Hpin & Hpj). destruct (Hin p Hpin) as (H1 & H0 & Hle).
+      destruct (smem_wb_ok m (4 * (s + fst p)) (snd p) (dst + fst p) H1) as (ws & Hws & Hin').
+      exists (dst + fst p + (N.of_nat j - fst p), le32 (read m (4 * (s + fst p) + 4 * (N.of_nat j - fst p)) 4)).
+      split; [simpl; lia|]. apply Hwin. exists (4 * (s + fst p), 4 * snd p, dst + fst p), ws.
+      split; [apply in_map_iff; exists p; auto|]. split; auto. apply Hin'. exists (N.of_nat j - fst p). split; [lia|reflexivity].
+  - (* emu writes agree with f *)
+    intros kv Hkv. apply in_map_iff in Hkv. destruct Hkv as (j & <- & Hj). apply in_seq in Hj. cbn [fst snd]. unfold f.
+    replace (N.to_nat (4 * r) / 4)%nat with (N.to_nat r) in Hj by (replace (N.to_nat (4 * r)) with (N.to_nat r * 4)%nat by lia; rewrite Nat.div_mul; lia).
+    rewrite dword_of_read by lia. f_equal. f_equal. lia.
+  - (* timing writes agree with f *)
+    intros kv Hkv. apply Hwin in Hkv. destruct Hkv as (x & ws & Hx & Hws & Hkv).
+    apply in_map_iff in Hx. destruct Hx as (p & <- & Hpin). destruct (Hin p Hpin) as (H1 & H0 & Hle).
+    destruct (smem_wb_ok m (4 * (s + fst p)) (snd p) (dst + fst p) H1) as (ws' & Hws' & Hin').
+    rewrite Hws in Hws'. inversion Hws'; subst ws'. apply Hin' in Hkv. destruct Hkv as (j & Hj & ->).
+    cbn [fst snd]. unfold f. f_equal. f_equal. lia.
+Qed.
+
+End Smem.
